@@ -74,12 +74,14 @@ Proof. unfold layout_of. rewrite map_map. reflexivity. Qed.
    it): a signal appended to a big-endian message is cached with its previous byte order, and a
    size change never reaches the cache *)
 Theorem cache_stale_after_append :
-  exists ops, m_cache (run 64 ops) <> gen_filters (layout_of (run 64 ops)).
-Proof. exists [OSetByteOrder true; OAppend 0 15 KStandard false]. vm_compute. discriminate. Qed.
+  let m := run 64 [OSetByteOrder true; OAppend 0 15 KStandard false] in
+  m_cache m <> gen_filters (layout_of m) /\ filters m = gen_filters (layout_of m).
+Proof. cbv zeta. split; [vm_compute; discriminate | vm_compute; reflexivity]. Qed.
 
 Theorem cache_stale_after_resize_of_signal :
-  exists ops, m_cache (run 64 ops) <> gen_filters (layout_of (run 64 ops)).
-Proof. exists [OAppend 0 7 KStandard false; OSetGeom 0 0 12]. vm_compute. discriminate. Qed.
+  let m := run 64 [OAppend 0 7 KStandard false; OSetGeom 0 0 12] in
+  m_cache m <> gen_filters (layout_of m) /\ filters m = gen_filters (layout_of m).
+Proof. cbv zeta. split; [vm_compute; discriminate | vm_compute; reflexivity]. Qed.
 
 (* non-trivial instance: history with placements before and after SetByteOrder, a resize, a removal *)
 Example history_example :
